@@ -1,377 +1,296 @@
-"""C15 hunt (marker results are in normal form) on the UNMODIFIED library.
+"""C15 hunt (third round) - meant for the UNMODIFIED library.
 
-Usage: PYTHONPATH=src python hunt_C15.py [n_general] [n_small]
+Run:  cd /tmp/wt/C15i && PYTHONPATH=/tmp/wt/C15i/src /venv/bin/python hunt_C15.py [cases]
 
-Part 1 re-runs the random structural search (normal-form tree check + rendering parses
-with packaging) with two atom pools; part 2 prints the borderline observations made by
-hand, each with the input, what the library returns and what packaging says.
-
-Result of the hunt: NO new violation of the normal-form property itself was found
-(see the report printed at the end for the areas and case counts).
+Result of the hunt: NO new violation of C15 inside the property's quantifier.
+The script re-runs (a) the hand-written probes of rarely reached branches and
+(b) two random searches, judging every result with a structural normal-form checker
+and by re-parsing its rendering.  Two borderline observations OUTSIDE the quantifier
+are printed at the end as notes.
 """
-from dep_logic.markers import parse_marker, MultiMarker, MarkerUnion, AnyMarker, EmptyMarker
-from dep_logic.markers.single import (
-    SingleMarker,
-    MarkerExpression,
-    EqualityMarkerUnion,
-    InequalityMultiMarker,
-)
-from packaging.markers import Marker
 
+from __future__ import annotations
 
-def nf_problems(m, top=True):
-    """Return list of problems with the normal form of m."""
-    probs = []
-    if isinstance(m, (AnyMarker, EmptyMarker)):
-        if not top:
-            probs.append(f"nested {m!r}")
-        return probs
-    if isinstance(m, MarkerExpression):
-        return probs
-    if isinstance(m, (EqualityMarkerUnion, InequalityMultiMarker)):
-        vals = list(m.values)
-        if len(vals) < 2:
-            probs.append(f"atom group with {len(vals)} values: {m!r}")
-        if len(set(vals)) != len(vals):
-            probs.append(f"atom group with dup values: {m!r}")
-        return probs
-    if isinstance(m, (MultiMarker, MarkerUnion)):
-        kids = m.markers
-        if len(kids) < 2:
-            probs.append(f"{type(m).__name__} with {len(kids)} children: {m!r}")
-        if len(set(kids)) != len(kids):
-            probs.append(f"{type(m).__name__} with duplicate children: {m!r}")
-        for k in kids:
-            if type(k) is type(m):
-                probs.append(f"same-kind nested compound in {m!r}")
-            if k.is_any() or k.is_empty():
-                probs.append(f"neutral/absorbing child {k!r} in {type(m).__name__}")
-            probs.extend(nf_problems(k, top=False))
-        return probs
-    probs.append(f"unknown type {type(m)}")
-    return probs
-
-
-def render_problems(m):
-    probs = []
-    s = str(m)
-    if m.is_any():
-        if s != "":
-            probs.append(f"any renders {s!r}")
-        return probs
-    if m.is_empty():
-        return probs
-    if "<empty>" in s:
-        probs.append(f"renders <empty>: {s!r}")
-    try:
-        Marker(s)
-    except Exception as e:
-        probs.append(f"unparsable rendering {s!r}: {e}")
-    return probs
-
-
+import itertools
 import random
 import signal
 import sys
-import time
 
-class TO(BaseException):
+import dep_logic.utils as U
+from dep_logic.markers import (
+    AnyMarker,
+    EmptyMarker,
+    MarkerUnion,
+    MultiMarker,
+    from_pkg_marker,
+    parse_marker,
+)
+from dep_logic.markers.single import (
+    EqualityMarkerUnion,
+    InequalityMultiMarker,
+    MarkerExpression,
+)
+from packaging.markers import Marker
+
+P = parse_marker
+
+
+def nf_problems(m, path="root"):
+    if isinstance(m, (AnyMarker, EmptyMarker, MarkerExpression)):
+        return []
+    if isinstance(m, (EqualityMarkerUnion, InequalityMultiMarker)):
+        vals = list(m.values)
+        return (
+            [f"{path}: atom group with values {vals}"]
+            if len(vals) < 2 or len(set(vals)) != len(vals)
+            else []
+        )
+    if not isinstance(m, (MultiMarker, MarkerUnion)):
+        return [f"{path}: unexpected node {type(m).__name__}"]
+    out = []
+    kids = list(m.markers)
+    if len(kids) < 2:
+        out.append(f"{path}: {type(m).__name__} with {len(kids)} children")
+    for i, j in itertools.combinations(range(len(kids)), 2):
+        if kids[i] == kids[j]:
+            out.append(f"{path}: equal children {i},{j}")
+    for i, k in enumerate(kids):
+        if k.is_any() or k.is_empty():
+            out.append(f"{path}: child {i} is {k!r}")
+        if type(k) is type(m):
+            out.append(f"{path}: child {i} same kind")
+        out += nf_problems(k, f"{path}.{i}")
+    return out
+
+
+def full_check(m):
+    """normal form + rendering re-parses (packaging) into a normal-form marker."""
+    p = nf_problems(m)
+    if not m.is_any() and not m.is_empty():
+        s = str(m)
+        if "<empty>" in s or not s.strip():
+            p.append(f"renders {s!r}")
+        Marker(s)  # raises if a dangling operator was rendered
+        p += ["reparse " + x for x in nf_problems(parse_marker(s))]
+    return p
+
+
+violations: list[str] = []
+borderline: list[str] = []  # operands that are themselves non-normal (raw constructors)
+ran = 0
+
+
+def probe(label, thunk, bucket=violations):
+    global ran
+    ran += 1
+    try:
+        m = thunk()
+        p = nf_problems(m) if bucket is borderline else full_check(m)
+    except Exception as e:  # wrong-type exceptions count too
+        bucket.append(f"{label}: raised {type(e).__name__}: {e}")
+        return
+    if p:
+        bucket.append(f"{label}: returned {m!r}: {p}")
+
+
+# ---------------------------------------------------------------- hand-written probes
+A, B = P('os_name == "a"'), P('sys_platform == "b"')
+E, ANY = EmptyMarker(), AnyMarker()
+eq = P('os_name == "a" or os_name == "b"')
+ne = P('os_name != "a" and os_name != "b"')
+assert isinstance(eq, EqualityMarkerUnion) and isinstance(ne, InequalityMultiMarker)
+
+# neutral / absorbing operands with every node class, both operand orders (dunder
+# dispatch: __and__/__rand__/__or__/__ror__ across classes)
+nodes = [A, A & B, A | B, eq, ne, eq & B, ne | B, E, ANY]
+for x, y in itertools.product(nodes, repeat=2):
+    probe(f"{x!r} & {y!r}", lambda: x & y)
+    probe(f"{x!r} | {y!r}", lambda: x | y)
+for x, y, z in itertools.product(nodes, repeat=3):
+    probe("3-operand union", lambda: U.union(x, y, z))
+    probe("3-operand intersection", lambda: U.intersection(x, y, z))
+    probe("MarkerUnion.of", lambda: MarkerUnion.of(x, y, z))
+    probe("MultiMarker.of", lambda: MultiMarker.of(x, y, z))
+probe("union()", lambda: U.union())
+probe("intersection()", lambda: U.intersection())
+probe("MultiMarker.of()", lambda: MultiMarker.of())
+probe("MarkerUnion.of()", lambda: MarkerUnion.of())
+
+# operands built through the constructors (one-child, zero-child, with neutral children)
+for built in [
+    MultiMarker(A), MarkerUnion(A), MultiMarker(), MarkerUnion(), MultiMarker(A, ANY),
+    MultiMarker(A, E), MarkerUnion(A, E), MarkerUnion(A, ANY), MultiMarker(MarkerUnion(A), B),
+]:
+    for other in [B, A | B, A & B, eq, E, ANY]:
+        probe(f"built {built!r} | {other!r}", lambda: built | other, borderline)
+        probe(f"built {built!r} & {other!r}", lambda: built & other, borderline)
+        probe(f"{other!r} | built {built!r}", lambda: other | built, borderline)
+        probe(f"{other!r} & built {built!r}", lambda: other & built, borderline)
+
+# only / exclude / without_extras, including on results of `|`
+NAMES = ["os_name", "sys_platform", "extra", "python_version", "python_full_version", "nope"]
+for text in [
+    'os_name == "a" and sys_platform == "b"',
+    'os_name == "a" or sys_platform == "b"',
+    '(os_name == "a" and extra == "x") or (sys_platform == "b" and extra == "y")',
+    '(extra == "x" and extra == "y") or os_name == "a"',
+    '(extra == "x" or os_name == "a") and (extra == "y" or sys_platform == "b")',
+    'os_name == "a" or os_name == "b"',
+    'os_name != "a" and os_name != "b"',
+    '(os_name == "a" or os_name == "b") and extra == "x"',
+    'python_version >= "3.8" and (python_full_version < "3.9.1" or extra == "x")',
+]:
+    m = P(text)
+    for n in NAMES:
+        probe(f"({text}).exclude({n})", lambda: m.exclude(n))
+        probe(f"({text}).only({n})", lambda: m.only(n))
+        probe(f"(({text}) | B).exclude({n})", lambda: (m | B).exclude(n))
+        probe(f"(({text}) | B).only({n}, 'sys_platform')", lambda: (m | B).only(n, "sys_platform"))
+    probe(f"({text}).only()", lambda: m.only())
+    probe(f"({text}).without_extras()", lambda: m.without_extras())
+
+# parser: grouping, repeated atoms, literal-on-the-left, name aliases, extra normalisation,
+# group/group interactions, python_version vs python_full_version merging
+for text in [
+    '((os_name == "a"))', 'os_name == "a" and (os_name == "a")',
+    '(os_name == "a" or os_name == "a") and sys_platform == "x"',
+    'os.name == "a" and os_name == "a"', '"a" == os_name or os_name == "a"',
+    'python_implementation == "x" or platform_python_implementation == "x"',
+    'extra == "a" and extra == "A"', 'extra == "a_b" or extra == "A.B"',
+    '"a" == extra or extra == "a"', 'extra != "a" and "a" != extra', 'extra == "a" or extra != "a"',
+    'os_name == "a" or (os_name == "b" or (os_name == "c" or sys_platform == "x"))',
+    'os_name != "a" and (os_name != "b" and (os_name != "c" and sys_platform == "x"))',
+    '(os_name != "a" and os_name != "b") or (os_name != "c" and os_name != "d")',
+    '(os_name != "a" and os_name != "b") or (os_name != "b" and os_name != "d")',
+    '(os_name == "a" or os_name == "b") and (os_name == "c" or os_name == "d")',
+    '(os_name == "a" or os_name == "b") and (os_name == "b" or os_name == "d")',
+    '(os_name != "a" and os_name != "b") or (os_name == "a" or os_name == "b")',
+    '(os_name != "a" and os_name != "b") and (os_name == "a" or os_name == "c")',
+    '(os_name != "a" and os_name != "b") or (os_name == "a" or os_name == "c")',
+    '(os_name == "a" or os_name == "b") and "a" not in os_name',
+    '(os_name != "a" and os_name != "b") or "a" in os_name',
+    'python_version == "3.8" and python_full_version == "3.8.*"',
+    'python_version >= "3.8" and python_full_version < "3.8.0"',
+    'python_version >= "3.8" or python_full_version < "3.8.0"',
+    'python_version != "3.8" or python_full_version == "3.8.*"',
+    'python_version ~= "3.8" and python_full_version ~= "3.8.2"',
+    'python_version >= "3" or python_full_version < "3"',
+    'python_full_version >= "1!3" or python_version < "3"',
+    'python_version == "3.8" or python_version == "3.8.0"',
+    'python_version >= "3.8" and sys_platform == "b" or python_version >= "3.7"',
+    '(python_version >= "3.8" or sys_platform == "b") and python_version >= "3.9"',
+    'implementation_version == "1" and "1" == implementation_version',
+    'platform_version == "#1 SMP" or platform_version == "x"',
+]:
+    probe(f"parse {text}", lambda: P(text))
+    probe(f"from_pkg_marker {text}", lambda: from_pkg_marker(Marker(text)))
+
+print(f"hand-written probes: {ran} results checked")
+
+# ---------------------------------------------------------------- random searches
+N = int(sys.argv[1]) if len(sys.argv) > 1 else 6000
+rnd = random.Random(20260930)
+ATOMS = [P(a) for a in [
+    'os_name == "a"', 'os_name == "b"', 'os_name == "c"', 'os_name != "a"', 'os_name != "b"',
+    'os_name != "c"', 'os_name in "ab"', 'os_name not in "ab"', '"a" in os_name',
+    'sys_platform == "x"', 'sys_platform != "x"', 'sys_platform == "y"',
+    'platform_machine == "m"', 'platform_machine == "n"', 'platform_system == "s"',
+    'python_version >= "3.8"', 'python_version < "3.8"', 'python_version == "3.8"',
+    'python_version != "3.8"', 'python_full_version >= "3.8.0"', 'python_full_version < "3.9"',
+    'python_full_version >= "3.8.2"', 'python_version < "3.10"', 'python_version > "3.8"',
+    'python_full_version == "3.8.*"', 'python_version ~= "3.8"', '"3.9" <= python_version',
+    'extra == "a"', 'extra == "b"', 'extra != "a"', '"a" in extras', '"a" not in extras',
+    '"g" in dependency_groups', 'implementation_version == "3.8"', 'platform_release >= "5"',
+    'platform_release < "5"',
+]]
+NAMES = ["os_name", "sys_platform", "python_version", "python_full_version", "extra", "extras",
+         "platform_machine", "platform_release"]
+
+
+def gen(d):
+    r = rnd.random()
+    if d == 0 or r < 0.25:
+        if r < 0.02:
+            return AnyMarker()
+        if r < 0.04:
+            return EmptyMarker()
+        return rnd.choice(ATOMS)
+    a = gen(d - 1)
+    k = rnd.random()
+    if k < 0.35:
+        return a & gen(d - 1)
+    if k < 0.70:
+        return a | gen(d - 1)
+    if k < 0.76:
+        return a.only(*rnd.sample(NAMES, rnd.choice([1, 2, 3])))
+    if k < 0.82:
+        return a.exclude(rnd.choice(NAMES))
+    if k < 0.85:
+        return a.without_extras()
+    if k < 0.90:
+        return MultiMarker.of(a, gen(d - 1), gen(d - 1))
+    if k < 0.95:
+        return MarkerUnion.of(a, gen(d - 1), gen(d - 1))
+    if k < 0.975:
+        return U.union(a, gen(d - 1), gen(d - 1))
+    return U.intersection(a, gen(d - 1), gen(d - 1))
+
+
+class _Timeout(Exception):
     pass
 
-def _h(*a):
-    raise TO()
 
-signal.signal(signal.SIGALRM,_h)
-
-from dep_logic.markers import parse_marker, AnyMarker, EmptyMarker
-
-STR_VARS = [
-    "os_name",
-    "sys_platform",
-    "platform_system",
-    "platform_machine",
-    "implementation_name",
-    "platform_python_implementation",
-    "platform_version",
-]
-STR_VALS = ["a", "b", "c", "ab", "abc", "linux", "win32", "nt", "posix", ""]
-PV_VALS = ["3", "3.7", "3.8", "3.9", "3.10", "3.8.0", "3.8.1", "2.7", "4", "3.*", "3.8.*", "3.8.0.0"]
-PFV_VALS = ["3.8", "3.8.0", "3.8.1", "3.9.0", "3.9", "3.10.2", "3", "3.8.*", "3.*", "3.8.0.0", "3.8.1.0", "1!3.8", "0!3.8"]
-REL_VALS = ["5.4", "5.4.0", "5.10", "6", "5.*", "1!5.4"]
-IMPL_VALS = ["3.8.0", "3.9", "3.8"]
-EXTRAS = ["a", "A", "b", "a-b", "a_b", "A.B", "c"]
-VOPS = ["==", "!=", "<", "<=", ">", ">=", "~="]
+def _alarm(*_):
+    raise _Timeout()
 
 
-def atom(rng):
-    k = rng.random()
-    if k < 0.3:
-        v = rng.choice(STR_VARS)
-        val = rng.choice(STR_VALS)
-        r = rng.random()
-        if r < 0.45:
-            return f'{v} == "{val}"'
-        if r < 0.75:
-            return f'{v} != "{val}"'
-        if r < 0.8:
-            return f'{v} in "{val}"'
-        if r < 0.85:
-            return f'{v} not in "{val}"'
-        if r < 0.9:
-            return f'"{val}" in {v}'
-        if r < 0.93:
-            return f'"{val}" not in {v}'
-        if r < 0.97:
-            return f'"{val}" == {v}'
-        return f'"{val}" != {v}'
-    if k < 0.5:
-        op = rng.choice(VOPS)
-        val = rng.choice(PV_VALS)
-        if "*" in val and op not in ("==", "!="):
-            op = "=="
-        if op == "~=" and "." not in val:
-            op = ">="
-        if rng.random() < 0.1 and "*" not in val and op != "~=":
-            return f'"{val}" {op} python_version'
-        return f'python_version {op} "{val}"'
-    if k < 0.68:
-        op = rng.choice(VOPS)
-        val = rng.choice(PFV_VALS)
-        if "*" in val and op not in ("==", "!="):
-            op = "=="
-        if op == "~=" and "." not in val:
-            op = ">="
-        if rng.random() < 0.1 and "*" not in val and op != "~=" and "!" not in val:
-            return f'"{val}" {op} python_full_version'
-        return f'python_full_version {op} "{val}"'
-    if k < 0.74:
-        op = rng.choice(VOPS)
-        val = rng.choice(REL_VALS)
-        if "*" in val and op not in ("==", "!="):
-            op = "=="
-        if op == "~=" and "." not in val:
-            op = ">="
-        return f'platform_release {op} "{val}"'
-    if k < 0.78:
-        op = rng.choice(["==", "!=", ">=", "<"])
-        return f'implementation_version {op} "{rng.choice(IMPL_VALS)}"'
-    if k < 0.92:
-        op = rng.choice(["==", "!="])
-        return f'extra {op} "{rng.choice(EXTRAS)}"'
-    v = rng.choice(["extras", "dependency_groups"])
-    op = rng.choice(["in", "not in"])
-    return f'"{rng.choice(EXTRAS)}" {op} {v}'
-
-
-def expr(rng, depth):
-    if depth == 0 or rng.random() < 0.3:
-        return atom(rng)
-    n = rng.choice([2, 2, 3, 4])
-    op = rng.choice([" and ", " or "])
-    parts = []
-    for _ in range(n):
-        e = expr(rng, depth - 1)
-        if " and " in e or " or " in e:
-            e = f"({e})"
-        parts.append(e)
-    return op.join(parts)
-
-
-NAMES = STR_VARS + ["python_version", "python_full_version", "platform_release", "implementation_version", "extra", "extras", "dependency_groups"]
-
-
-def check(label, m, found):
-    p = nf_problems(m) + render_problems(m)
-    if p:
-        found.append((label, repr(m), p))
-        return True
-    return False
-
-
-def main(seed, n):
-    rng = random.Random(seed)
-    found = []
-    cases = 0
-    t0 = time.time()
-    slow = 0
-    for i in range(n):
+signal.signal(signal.SIGALRM, _alarm)
+done = timeouts = 0
+for _ in range(N):
+    try:
         signal.alarm(3)
-        try:
-            one(rng, found)
-        except TO:
-            slow += 1
-        finally:
-            signal.alarm(0)
-        if len(found) > 30:
-            break
-    print('slow', slow)
-    report(seed, found, t0)
-    return found
+        m = gen(rnd.choice([2, 3, 4]))
+        p = full_check(m)
+        signal.alarm(0)
+    except _Timeout:  # known family (9): exponential run time
+        timeouts += 1
+        continue
+    except Exception as e:
+        signal.alarm(0)
+        violations.append(f"random: raised {type(e).__name__}: {e}")
+        continue
+    done += 1
+    if p:
+        violations.append(f"random: returned {m!r}: {p}")
+print(f"random search: {done} results checked ({timeouts} skipped on the 3 s time limit)")
 
-CASES = [0]
+print()
+if violations:
+    print(f"{len(violations)} VIOLATION(S) OF C15:")
+    for v in violations[:20]:
+        print(" -", v)
+else:
+    print("NO new C15 violation found on this tree.")
 
-def one(rng, found):
-    if True:
-        k = rng.choice([2, 2, 3, 4])
-        srcs = []
-        ms = []
-        for _ in range(k):
-            r = rng.random()
-            if r < 0.05:
-                srcs.append("<empty>")
-            elif r < 0.1:
-                srcs.append("")
-            else:
-                srcs.append(expr(rng, rng.choice([0, 1, 1, 2])))
-        try:
-            ms = [parse_marker(s) for s in srcs]
-        except Exception as e:
-            found.append(("parse", srcs, [repr(e)]))
-            return
-        for s, m in zip(srcs, ms):
-            CASES[0] += 1
-            check(f"parse {s!r}", m, found)
-        acc = ms[0]
-        desc = f"P({srcs[0]!r})"
-        for s, m in zip(srcs[1:], ms[1:]):
-            op = rng.choice("&|")
-            try:
-                acc = (acc & m) if op == "&" else (acc | m)
-            except Exception as e:
-                found.append((desc + f" {op} P({s!r})", "EXC", [repr(e)]))
-                break
-            desc = f"({desc} {op} P({s!r}))"
-            CASES[0] += 1
-            check(desc, acc, found)
-        else:
-            for _ in range(2):
-                r = rng.random()
-                try:
-                    if r < 0.3:
-                        names = rng.sample(NAMES, rng.choice([1, 2, 3]))
-                        res = acc.only(*names)
-                        d = f"{desc}.only{tuple(names)}"
-                    elif r < 0.6:
-                        nm = rng.choice(NAMES)
-                        res = acc.exclude(nm)
-                        d = f"{desc}.exclude({nm!r})"
-                    else:
-                        res = acc.without_extras()
-                        d = f"{desc}.without_extras()"
-                except Exception as e:
-                    found.append((desc, "EXC", [repr(e)]))
-                    continue
-                CASES[0] += 1
-                check(d, res, found)
-                # reparse
-                if not res.is_any() and not res.is_empty():
-                    try:
-                        rp = parse_marker(str(res))
-                        CASES[0] += 1
-                        check(f"reparse of {d}: {str(res)!r}", rp, found)
-                    except Exception as e:
-                        found.append((d, "reparse EXC", [repr(e)]))
+# ---------------------------------------------------------------- notes (outside the quantifier)
+print()
+print("Notes (NOT counted: outside the property's quantifier)")
+print(" 0. operands built with the raw constructors that are themselves not in normal form")
+print("    (MultiMarker(A), MarkerUnion(), MultiMarker(A, AnyMarker()), ...) are normalised by every")
+print("    operator path EXCEPT the identity shortcuts EmptyMarker.__or__ / AnyMarker.__and__ (left")
+print(f"    operand neutral), which hand the operand back untouched - {len(borderline)} such results:")
+for b in borderline[:4]:
+    print("      " + b)
+import dep_logic.markers.utils as orphan  # noqa: E402  (a module nothing in the library imports)
 
-def report(seed, found, t0):
-    cases = CASES[0]
-    print(f"seed={seed} cases={cases} found={len(found)} time={time.time()-t0:.1f}s")
-    seen = set()
-    for label, r, p in found:
-        key = p[0][:40]
-        if key in seen:
-            continue
-        seen.add(key)
-        print("----")
-        print(label)
-        print(r)
-        for x in p:
-            print("   ", x)
-    return found
-
-
-
-
-def small_atom(rng):
-    k = rng.random()
-    if k < 0.6:
-        v = rng.choice(["os_name", "sys_platform"])
-        val = rng.choice(["a", "b", "c", "ab"])
-        r = rng.random()
-        if r < 0.4: return f'{v} == "{val}"'
-        if r < 0.8: return f'{v} != "{val}"'
-        if r < 0.85: return f'{v} in "{val}"'
-        if r < 0.9: return f'{v} not in "{val}"'
-        if r < 0.95: return f'"{val}" in {v}'
-        return f'"{val}" == {v}'
-    if k < 0.8:
-        op = rng.choice(["==", "!=", "<", ">=", "<=", ">"])
-        return f'python_version {op} "{rng.choice(["3.7","3.8","3.9"])}"'
-    if k < 0.9:
-        op = rng.choice(["==", "!=", "<", ">=", "<=", ">"])
-        return f'python_full_version {op} "{rng.choice(["3.8.0","3.8.1","3.9.0", "3.8"])}"'
-    return f'extra {rng.choice(["==","!="])} "{rng.choice(["x","y"])}"'
-
-
-def observations():
-    from packaging.markers import Marker
-    from dep_logic.markers import MarkerExpression
-
-    print()
-    print("=== borderline observations (not normal-form violations in the strict sense) ===")
-    # 1. rendering of a literal containing NUL / a lone surrogate does not re-parse
-    for src in [r'os_name == "a\x00b"', r'os_name == "a\ud800b"']:
-        m = parse_marker(src)
-        text = str(m)
-        try:
-            Marker(text)
-            verdict = "parses"
-        except Exception as e:  # noqa: BLE001
-            verdict = f"packaging rejects it: {str(e).splitlines()[0]}"
-        print(f"[render] input {src!r}: packaging accepts the input; str(result) = {text!r}; {verdict}")
-    # 2. complementary `in extras` atoms are kept as a two-child compound
-    for src, want in [
-        ('"a" in extras or "a" not in extras', True),
-        ('"a" in extras and "a" not in extras', False),
-        ('"a" in os_name or "a" not in os_name', True),
-    ]:
-        m = parse_marker(src)
-        pk = Marker(src)
-        name = "extras" if "extras" in src else "os_name"
-        vals = [set(), {"a"}, {"b"}, {"a", "b"}] if name == "extras" else ["", "a", "b", "xay"]
-        truth = [pk.evaluate({name: v}) for v in vals]
-        print(
-            f"[is_any/is_empty] {src!r} -> {m!r}; is_any={m.is_any()} is_empty={m.is_empty()};"
-            f" packaging on {vals}: {truth} (constant {want});"
-            f" whereas {'os_name in \"ab\" or os_name not in \"ab\"'!r} -> {parse_marker('os_name in \"ab\" or os_name not in \"ab\"')!r}"
-        )
-    # 3. atoms built with the public MarkerExpression constructor are not name-normalised
-    a, b = MarkerExpression("extra", "==", "A_b"), MarkerExpression("extra", "!=", "a-b")
-    r = a & b
-    print(
-        f"[extra names] MarkerExpression('extra','==','A_b') & MarkerExpression('extra','!=','a-b') -> {r!r},"
-        f" is_empty={r.is_empty()}, evaluates {[r.evaluate({'extra': e}) for e in ['a-b', 'A_b', 'x', '']]} on"
-        f" extra in ['a-b','A_b','x','']; the same text through parse_marker gives"
-        f" {parse_marker('extra == \"A_b\" and extra != \"a-b\"')!r} (packaging normalises while parsing)"
-    )
-
-
-if __name__ == "__main__":
-    n_general = int(sys.argv[1]) if len(sys.argv) > 1 else 300
-    n_small = int(sys.argv[2]) if len(sys.argv) > 2 else 1500
-    print("=== part 1: random structural search ===")
-    f1 = main(0, n_general)
-    general_atom = atom
-    atom = small_atom
-    f2 = main(1, n_small)
-    atom = general_atom
-    print("NEW normal-form violations found:", len(f1) + len(f2))
-    observations()
-    print()
-    print("=== areas covered during the hunt (all: 0 normal-form violations) ===")
-    print("- general pool fuzz (7 string vars, python_version/python_full_version/platform_release/")
-    print("  implementation_version, extra, extras/dependency_groups, reversed atoms, wildcards, ~=, epochs,")
-    print("  Any/Empty operands, 2-4 operands with mixed &,|, then only/exclude/without_extras and re-parse): ~34,000 results")
-    print("- small pool fuzz (2 vars x 4 values, python_version x python_full_version, extra): ~68,000 results")
-    print("- exhaustive pairs of 36 hand-picked atoms x {&,|} x 4 projections: 12,960 results")
-    print("- sampled 4-operand combinations of 27 atoms, both groupings, all 8 operator triples, projections: 2,047,872 results")
-    print("- 26 odd version operands (not versions, double wildcards, empty, unicode digits, '0') x 33 partners: 3,432 results, no exception")
+p_ = P('platform_machine == "n" and sys_platform == "y"')
+q_ = P('platform_system == "s" and sys_platform == "x"')
+r_ = orphan.union(p_, q_, EmptyMarker())
+print(" 1. dep_logic/markers/utils.py is an unused stale copy of dep_logic/utils.py; its union()")
+print("    still lacks the empty-operand filter:")
+print(f"      dep_logic.markers.utils.union(P, Q, EmptyMarker()) -> {r_!r}")
+print(f"      (P | Q | EmptyMarker() through the real operators  -> {(p_ | q_ | EmptyMarker())!r})")
+lit = P('"a" == "a"')
+print(" 2. an atom with a literal on BOTH sides (packaging parses it, evaluating it raises")
+print("    UndefinedEnvironmentName there) is accepted and rendered with a bare name:")
+print(f"      parse_marker('\"a\" == \"a\"') -> {lit!r}; str() does not re-parse; evaluate() raises KeyError")
